@@ -260,7 +260,7 @@ prop("C14", level="proof",
 
 prop("C15", level="proof",
      claim="bool: both values; char: every scalar value against the UTF-8 encoding written from the definition; String/&str: from_str contract; "
-           "LeanString: shallow clone; generic Display: user Display emitting <= 3 pieces, failing after any piece or never => Err(Fmt) or "
+           "LeanString: shallow clone (contract of Clone::clone; the dispatch arm itself is not run); generic Display: user Display emitting <= 3 pieces, failing after any piece or never => Err(Fmt) or "
            "the concatenation (bounded).",
      functions=["Repr::from_bool", "Repr::from_char", "ToLeanString::try_to_lean_string", "fmt::Write::write_str"],
      verus=[],
